@@ -78,6 +78,19 @@ fn to_crlf(text: &str, spans: &mut Vec<(usize, usize, String)>) -> String {
     text.replace('\n', "\r\n")
 }
 
+/// Remove the blanks in front of the first statement of a file (the statement then starts at offset 0).
+fn strip_leading_blanks(text: &str, spans: &mut Vec<(usize, usize, String)>) -> String {
+    let k = text.chars().take_while(|c| *c == ' ' || *c == '\t').count();
+    if k == 0 || spans.iter().any(|s| s.0 < k) {
+        return text.to_string();
+    }
+    for s in spans.iter_mut() {
+        s.0 -= k;
+        s.1 -= k;
+    }
+    text.chars().skip(k).collect()
+}
+
 struct FileCtx {
     ti: TextIndex,
     rtoks: Vec<RTok>,
@@ -326,6 +339,21 @@ impl C09 {
                     }
                 }
                 None => {
+                    // a node that begins inside a well-formed statement designates only a part of it
+                    if let Some(x) = f.spans.iter().find(|x| (x.2 == "stmt" || x.2 == "label") && x.0 < s && e <= x.1) {
+                        out.push(
+                            Violation::new(format!(
+                                "node {:?} covers {:?}, a part of the statement {:?} (file {}, line {})",
+                                n.shown,
+                                f.ti.slice(s, e),
+                                f.ti.slice(x.0, x.1),
+                                n.file,
+                                n.range.start.line
+                            ))
+                            .with("entity", "node")
+                            .with("field", "start"),
+                        );
+                    }
                     if !f.has_bad_literal && (!f.starts.contains_key(&s) || !f.ends.contains(&e)) {
                         out.push(
                             Violation::new(format!(
@@ -485,6 +513,12 @@ impl Prop for C09 {
         if ch.chance(1, 3) {
             gen::inject_defects(&mut lines, ch, 2);
         }
+        // a program that starts with a jump over its data or helpers (one-letter mnemonic first)
+        if ch.chance(1, 12) {
+            if let Some(l) = lines.iter().find_map(|l| if let Line::Label(n) = l { Some(n.clone()) } else { None }) {
+                lines.insert(0, Line::Ins(Ins::new("j", vec![Opd::L(l)])));
+            }
+        }
         let files = if ch.chance(1, 4) {
             gen::split_include(&lines, ch, 3)
         } else {
@@ -502,7 +536,8 @@ impl Prop for C09 {
         for (name, ls) in &files {
             let rd = render(ls, ch, &opts);
             let mut sp = spans_of(&rd, ls);
-            let text = if crlf { to_crlf(&rd.text, &mut sp) } else { rd.text };
+            let text = if ch.chance(1, 4) { strip_leading_blanks(&rd.text, &mut sp) } else { rd.text };
+            let text = if crlf { to_crlf(&text, &mut sp) } else { text };
             out_files.push((name.clone(), text));
             spans.push(sp);
         }
